@@ -560,7 +560,8 @@ impl TriMesh {
             vtx_to_id: &mut HashMap<HashablePartialEq<Point<Real>>, u32>,
             new_vertices: &mut Vec<Point<Real>>,
         ) -> u32 {
-            let key = HashablePartialEq::new(*coord);
+            // `-0.0 == 0.0` but their bytes (which `HashablePartialEq` hashes) differ: use `+0.0` in the key.
+            let key = HashablePartialEq::new(coord.map(|x| x + 0.0));
             let id = match vtx_to_id.entry(key) {
                 Entry::Occupied(entry) => entry.into_mut(),
                 Entry::Vacant(entry) => entry.insert(new_vertices.len() as u32),
